@@ -3,6 +3,7 @@ import RPVerif.Lemmas.Pipeline
 import RPVerif.Props.C06
 import RPVerif.Lemmas.Timeout
 import RPVerif.Gen.States
+import RPVerif.Gen.Exec
 
 /-!
 # C05 — Every submitted task ends in one final state that tells the truth
@@ -245,5 +246,21 @@ theorem C05_final_carries_details_witness :
     (viewRun acc ⟨.nf 1, false⟩ [noteOf false false none .done, noteOf false true (some (.nf 13)) (.nf 13)]) = ⟨.done, false⟩
     ∧ (viewRun acc ⟨.nf 1, false⟩ [noteOf true false none .done, noteOf true true (some (.nf 13)) (.nf 13)]) = ⟨.done, true⟩ := by
   decide
+
+/-! ### DONE only for exit code 0 - whatever ended the process (round 18) -/
+
+/-- **C05, DONE only if the process exited with code 0**: with the test of `Popen._check_running` as the translator reads it
+    (`Gen.doneIffExitZero`), for every return code - positive, or negative when the process was ended by a signal from
+    outside (OOM killer, epilogue of the batch system, an operator) - the task is DONE iff the code is 0 -/
+theorem C05_done_iff_exit_zero (code : Int) : targetOfCode Gen.doneIffExitZero code = .done ↔ code = 0 := by
+  have e : Gen.doneIffExitZero = true := by decide
+  rw [e]
+  unfold targetOfCode
+  by_cases h : code = 0
+  · simp [h]
+  · simp [h]
+
+/-- a test of the sign lets a process killed by SIGKILL (-9) end DONE -/
+theorem C05_done_iff_exit_zero_witness : targetOfCode false (-9) = .done ∧ targetOfCode true (-9) = .failed := by decide
 
 end RPVerif.C05
